@@ -69,12 +69,7 @@ void c12_check_current_basis (mpq_QSprob p, const RefLP * L, const char *ctx)
 	STAT ("verd_states_checked");
 	QSbasis qb; qb.nstruct = L->n; qb.nrows = L->m; qb.cstat = cs; qb.rstat = rs;
 	mpq_t dob, neg; mpq_init (dob); mpq_init (neg);
-	char res = 9;
-	int rv = QSexact_basis_optimalstatus (p, &qb, &res, 1);
-	if (rv) viol ("C12", "hist-optimalstatus-error", "QSexact_basis_optimalstatus returned %d on the problem's own basis cstat=%.*s rstat=%.*s [history: %s]", rv, L->n, cs, L->m, rs, ctx);
-	else if ((res == 1) != (B->pfeas && B->dfeas))
-		viol ("C12", res ? "hist-optimalstatus-false-yes" : "hist-optimalstatus-false-no", "QSexact_basis_optimalstatus says %d but the exact basic solution of the current LP is primal %s, dual %s: basis cstat=%.*s rstat=%.*s [history: %s]",
-			res, B->pfeas ? "feasible" : "infeasible", B->dfeas ? "feasible" : "infeasible", L->n, cs, L->m, rs, ctx);
+	char res = 9; int rv;
 	for (int via = 0; via < 2; via++) {
 		res = 9; mpq_set_si (dob, -12345, 1);
 		rv = via ? QSexact_verify (p, &qb, 0, NULL, NULL, &res, &dob, 1) : QSexact_basis_dualstatus (p, &qb, &res, &dob, 1);
@@ -91,6 +86,13 @@ void c12_check_current_basis (mpq_QSprob p, const RefLP * L, const char *ctx)
 			}
 		}
 	}
+	/* last: this one rebuilds the library's internal copy of the LP; the two above come first after an edit */
+	res = 9;
+	rv = QSexact_basis_optimalstatus (p, &qb, &res, 1);
+	if (rv) viol ("C12", "hist-optimalstatus-error", "QSexact_basis_optimalstatus returned %d on the problem's own basis cstat=%.*s rstat=%.*s [history: %s]", rv, L->n, cs, L->m, rs, ctx);
+	else if ((res == 1) != (B->pfeas && B->dfeas))
+		viol ("C12", res ? "hist-optimalstatus-false-yes" : "hist-optimalstatus-false-no", "QSexact_basis_optimalstatus says %d but the exact basic solution of the current LP is primal %s, dual %s: basis cstat=%.*s rstat=%.*s [history: %s]",
+			res, B->pfeas ? "feasible" : "infeasible", B->dfeas ? "feasible" : "infeasible", L->n, cs, L->m, rs, ctx);
 	mpq_clear (dob); mpq_clear (neg);
 	obasis_free (B, S); sf_free (S);
 }
